@@ -403,6 +403,27 @@ class QArr(_QBase):
 
     def flatten(self): return QArr(self.F.reshape(-1, 4).copy())
     def ravel(self): return QArr(self.F.reshape(-1, 4))
+    def squeeze(self, axis=None): return NP.squeeze(self, axis)
+    def swapaxes(self, a1, a2): return NP.swapaxes(self, a1, a2)
+
+    def item(self):
+        if self.size != 1:
+            raise ValueError('can only convert an array of size 1 to a Python scalar')
+        f = self.F.reshape(4)
+        return SymQuat(f[0], f[1], f[2], f[3])
+
+    def astype(self, t, *a, **k):
+        if _isqdt(t):
+            return self.copy()
+        raise Unsupported('astype(%r) of a quaternion array' % (t,))
+
+    def fill(self, v):
+        self[...] = v
+
+    def tolist(self):
+        if self.ndim == 0:
+            return self.item()
+        return [self[i].tolist() if self.ndim > 1 else self[i] for i in range(len(self))]
 
     def __abs__(self):
         F = self.F
@@ -1063,8 +1084,74 @@ class NPFacade(types.ModuleType):
 
     def squeeze(self, a, axis=None):
         if isinstance(a, QArr):
-            raise Unsupported('squeeze of quaternion array')
+            if axis is None:
+                keep = tuple(d for d in a.shape if d != 1)
+                return a.reshape(keep) if keep else a.reshape(())
+            ax = axis if axis >= 0 else axis + a.ndim
+            return QArr(_np.squeeze(a.F, axis=ax))
         return _wrap(_np.squeeze(a, axis=axis))
+
+    def atleast_1d(self, a):
+        if isinstance(a, SymQuat):
+            return self.array([a])
+        if isinstance(a, QArr):
+            return a if a.ndim >= 1 else a.reshape((1,))
+        return _wrap(_np.atleast_1d(self._obj(self.asarray(a))))
+
+    def atleast_2d(self, a):
+        if isinstance(a, SymQuat):
+            return self.array([[a]])
+        if isinstance(a, QArr):
+            if a.ndim >= 2:
+                return a
+            return a.reshape((1, a.shape[0])) if a.ndim == 1 else a.reshape((1, 1))
+        return _wrap(_np.atleast_2d(self._obj(self.asarray(a))))
+
+    def expand_dims(self, a, axis):
+        if isinstance(a, QArr):
+            ax = axis if axis >= 0 else axis + a.ndim + 1
+            return QArr(_np.expand_dims(a.F, ax))
+        return _wrap(_np.expand_dims(a, axis))
+
+    def swapaxes(self, a, a1, a2):
+        if isinstance(a, QArr):
+            n = a.ndim
+            return QArr(_np.swapaxes(a.F, a1 % n, a2 % n))
+        return _wrap(_np.swapaxes(a, a1, a2))
+
+    def flip(self, a, axis=None):
+        if isinstance(a, QArr):
+            if axis is None:
+                axis = tuple(range(a.ndim))
+            axs = (axis,) if isinstance(axis, int) else tuple(axis)
+            return QArr(_np.flip(a.F, axis=tuple(x % a.ndim for x in axs)))
+        return _wrap(_np.flip(a, axis=axis))
+
+    def flipud(self, a):
+        return self.flip(a, 0)
+
+    def fliplr(self, a):
+        return self.flip(a, 1)
+
+    def ravel(self, a):
+        return a.ravel() if isinstance(a, QArr) else _wrap(_np.ravel(a))
+
+    def tile(self, a, reps):
+        if isinstance(a, QArr):
+            raise Unsupported('tile of quaternion array')
+        return _wrap(_np.tile(a, reps))
+
+    def count_nonzero(self, a, axis=None):
+        if axis is not None:
+            raise Unsupported('count_nonzero with axis')
+        if isinstance(a, QArr):
+            F = a.F.reshape(-1, 4)
+            return builtins.sum(1 for i in range(F.shape[0]) if bool(S.sb_or([F[i, c] != 0 for c in range(4)])))
+        a = a if isinstance(a, _np.ndarray) else self.asarray(a)
+        return builtins.sum(1 for v in a.flat if bool(_liftc(v) != 0))
+
+    def nonzero(self, a):
+        raise Unsupported('np.nonzero')
 
     def conjugate(self, a):
         if _isq(a):
@@ -1348,14 +1435,32 @@ class NPFacade(types.ModuleType):
             d = u - v
             if _is0(d):
                 continue
-            conds.append(abs(d) <= atol + rtol * abs(v))
+            if isinstance(u, SC) or isinstance(v, SC):
+                conds.append(abs(d) <= atol + rtol * abs(v))
+                continue
+            bound = atol + rtol * abs(v) if not (isinstance(v, K) and rtol * abs(v.v) == 0) else atol
+            if isinstance(lift(bound), K) and lift(bound).v >= 0:
+                conds.append(d * d <= lift(bound) * lift(bound))      # |d| <= c without a sign split
+            else:
+                conds.append(abs(d) <= bound)
         return conds
 
     def allclose(self, a, b, rtol=1e-05, atol=1e-08, **k):
         return bool(S.sb_and(self._close(a, b, rtol, atol)))
 
     def isclose(self, a, b, rtol=1e-05, atol=1e-08, **k):
-        raise Unsupported('np.isclose (array result)')
+        if _isq(a) or _isq(b):
+            raise Unsupported('np.isclose on quaternion arrays (array result)')
+        sa = not isinstance(a, (_np.ndarray, list, tuple))
+        sb = not isinstance(b, (_np.ndarray, list, tuple))
+        if sa and sb:
+            c = self._close(a, b, rtol, atol)
+            return S.sb_and(c)
+        A, B = _np.broadcast_arrays(_np.asarray(a, dtype=object), _np.asarray(b, dtype=object))
+        out = _np.empty(A.shape, dtype=object)
+        for i in range(A.size):
+            out.flat[i] = S.sb_and(self._close(A.flat[i], B.flat[i], rtol, atol))
+        return out.view(RArr)
 
     def array_equal(self, a, b):
         return self.allclose(a, b, 0, 0)
@@ -1479,6 +1584,35 @@ class SymCSR:
     @property
     def nnz(self):
         return builtins.sum(1 for v in self.a.flat if not _is0(v))
+
+    @property
+    def data(self):
+        """stored entries: every entry that is not the concrete constant 0 (a symbolic entry
+        is treated as stored; scipy would drop it if it happened to be exactly 0)"""
+        vals = [v for v in self.a.flat if not _is0(v)]
+        out = _np.empty(len(vals), dtype=object)
+        for i, v in enumerate(vals):
+            out[i] = v
+        return out.view(RArr)
+
+    def max(self, axis=None):
+        if axis is not None:
+            raise Unsupported('sparse max with axis')
+        return NP.max(self.a)
+
+    def min(self, axis=None):
+        if axis is not None:
+            raise Unsupported('sparse min with axis')
+        return NP.min(self.a)
+
+    def count_nonzero(self):
+        return NP.count_nonzero(self.a)
+
+    def getnnz(self):
+        return self.nnz
+
+    def astype(self, t):
+        return self
 
     def __matmul__(self, o):
         if isinstance(o, SymCSR):
